@@ -3,6 +3,7 @@
    in write mode (some arrive via trylock, some first do an extra lock/unlock round so that waiters are present).
    Oracle: the runtime's arena -- the block is unmapped on free, so any access to the mutex by a releasing thread
    after another thread could acquire, drop the last reference and free is an immediate UAF report.
+   VRT_MUWAIT=1: some users first time out in nsync_mu_wait_with_deadline inside the critical section.
    VRT_RMODE=1 lets users hold the reference through read locks for part of the work (the reader-mode variant). */
 #include "nsync.h"
 #include "vrt.h"
@@ -12,6 +13,8 @@
 struct obj { nsync_mu mu; int refs; int payload; };
 static struct obj *o;
 
+static int never (const void *v) { return 0; }
+
 static void user (void *a) {
 	int last, rounds = (int) vrt_rand (2);
 	while (rounds-- > 0) {                       /* extra traffic so that queues form */
@@ -20,6 +23,11 @@ static void user (void *a) {
 	}
 	if (vrt_rand (3) == 0) { while (!nsync_mu_trylock (&o->mu)) vrt_yield (); }
 	else nsync_mu_lock (&o->mu);
+	if (vrt_opt ("MUWAIT", 0) && vrt_rand (2)) {
+		/* a conditional wait that times out inside the critical section (the user still holds its reference) */
+		nsync_mu_wait_with_deadline (&o->mu, never, NULL, NULL, vrt_abs ((int64_t) vrt_rand (3) * 600), NULL);
+		vrt_count ("timed_wait");
+	}
 	last = (--o->refs == 0);
 	nsync_mu_unlock (&o->mu);
 	if (last) { free (o); vrt_count ("freed"); }
